@@ -97,7 +97,13 @@ def make_inputs(rng, kind):
         return {"main.pn": text.encode()}, ["main.pn"], True, True, ["main.pn"]
     if kind == "valid_large":
         prog = pngen.generate(rng, n_funcs=rng.randint(60, 160))
-        return {"main.pn": prog.single_file().encode()}, ["main.pn"], True, True, ["main.pn"]
+        text = prog.single_file()
+        if rng.random() < 0.6:
+            # comments full of two- and three-byte characters: whatever block size a reader uses,
+            # some character straddles a block boundary
+            shift = rng.randrange(3)
+            text = "//" + "x" * shift + "\n" + "\n".join(line + ("  // \u5b57\u00e9\u8a9e\u20ac\u672c\u65e5" if k % 2 == 0 else "") for k, line in enumerate(text.split("\n")))
+        return {"main.pn": text.encode()}, ["main.pn"], True, True, ["main.pn"]
     if kind == "package_only":
         pkg = rng.choice(["core:text", "core:text/char.pn", "vendor:libc"])
         return {}, [pkg], True, True, []
@@ -196,7 +202,7 @@ def make_scenario(rng, sub=None, input_kind=None, force=None):
             sc["env"]["PENNE_BACKEND" if is_run else "PENNE_LLI"] = "wrongbe"
             sc["stubs"].append("wrongbe")
         if opt("backend_args", 0.25):
-            sc["backend_args"] = rng.choice([["-O1"], ["-O2", "-g"], ["--flag=x"]])
+            sc["backend_args"] = rng.choice([["-O1"], ["-O2", "-g"], ["--flag=x"], ["-fno-common"], ["-fno-color-diagnostics", "-O1"], ["--sysroot=/opt/x-Sdk/usr"]])
             sc["opts"] += ["--backend-args=" + " ".join(sc["backend_args"])]
         cfg_variant = force.get("config", rng.choice(["none"] * 4 + ["valid", "malformed", "unknown_field", "missing"]) if not is_run else "none")
         if not is_run:
@@ -308,6 +314,12 @@ def exec_scenario(sc, wd, plan=None, keep=False, real_lli=False, restart=False, 
             p = os.path.join(wd, link)
             os.makedirs(os.path.dirname(p), exist_ok=True)
             os.symlink(target, p)
+    feeders = []
+    if not restart:
+        for rel in sc.get("fifos", []):
+            # the same bytes, delivered through a named pipe (its reported size is 0)
+            import detsim
+            feeders.append(detsim.FifoFeeder(os.path.join(wd, rel), sc["files"][rel]))
     bindir = os.path.join(wd, "bin")
     os.makedirs(bindir)
     for name in sorted(set(sc["stubs"])):
@@ -335,11 +347,15 @@ def exec_scenario(sc, wd, plan=None, keep=False, real_lli=False, restart=False, 
                   trace=trace_path, clock=(10**12, 1000), pid=sc.get("sim_pid", 4242))
     stdout_kind = sc.get("stdout_kind", "pipe")
     argv = [a.replace("{WD}", wd) for a in argv_of(sc)]     # absolute input paths are written {WD}/... in scenarios
-    if stdout_kind == "pipe":
-        r = run_proc(argv, wd, env)
-    else:
-        # real-OS reporting faults: stdout is /dev/full (every write ENOSPC) or closed
-        r = run_proc(argv, wd, env, stdout_kind=stdout_kind)
+    try:
+        if stdout_kind == "pipe":
+            r = run_proc(argv, wd, env)
+        else:
+            # real-OS reporting faults: stdout is /dev/full (every write ENOSPC) or closed
+            r = run_proc(argv, wd, env, stdout_kind=stdout_kind)
+    finally:
+        for f in feeders:
+            f.stop()
     trace = read_trace(trace_path)
     obs = {"status": r.status(), "rc": r.rc, "sig": r.sig, "timeout": r.timeout, "out": r.out, "err": r.err, "trace": trace,
            "artefacts": {}, "marker": [], "stdin": {}, "wd": wd}
@@ -776,7 +792,7 @@ def script_grid():
 FS_VARIANTS = ["artefact_is_directory", "artefact_symlink_to_devfull", "out_dir_through_regular_file", "source_is_directory",
                "source_symlink_loop", "stdout_devfull", "stdout_closed", "config_is_directory",
                "silent_stdout_devfull", "silent_verbose_stdout_devfull", "silent_stdout_closed",
-               "absolute_input", "colliding_artefact_names", "env_backend_not_utf8"]
+               "absolute_input", "colliding_artefact_names", "env_backend_not_utf8", "source_is_fifo", "config_is_fifo"]
 
 
 def _fs_variant_job(args):
@@ -788,7 +804,7 @@ def _fs_variant_job(args):
     rng = rng_for(seed, "C18/fs", idx)
     force = {"cell": (0, 0, 0), "silent": False, "verbose": False, "script": {"read": "all", "exit": 0}, "order": "parent_first",
              "config": "none", "out_dir": "fresh", "wasm": False}
-    if variant == "config_is_directory":
+    if variant in ("config_is_directory", "config_is_fifo"):
         sub = "build"
     if variant.startswith("silent_"):
         force["silent"] = True
@@ -841,6 +857,18 @@ def _fs_variant_job(args):
         sc["locate_by_module_id"] = True
         sc["may_refuse"] = True     # a refusal (exit 1 with a message) is as faithful as two artefacts
         expect_fail = None
+    elif variant == "source_is_fifo":
+        # a source that arrives through a named pipe is the same source
+        sc["fifos"] = [sc["inputs"][-1]]
+        expect_fail = False
+    elif variant == "config_is_fifo":
+        # a config file that arrives through a named pipe still names the backend
+        sc["files"]["penne.toml"] = b'backend = "cfgbe"\n'
+        sc["opts"] += ["--config", "penne.toml"]
+        sc["fifos"] = ["penne.toml"]
+        sc["stubs"] = sorted(set(sc["stubs"]) | {"cfgbe"})
+        sc["backend_id"] = "cfgbe"
+        expect_fail = False
     elif variant == "env_backend_not_utf8":
         # the environment names a backend whose name is not valid UTF-8: run that one, or fail - never another one
         if sub != "emit":
